@@ -96,8 +96,14 @@ pub fn field_ranges(layout: &[FieldSpec], total: usize) -> Vec<(String, usize, u
     out
 }
 
+/// byte range of a field, clamped to the payload actually present (an already edited token
+/// may be shorter than its layout); None when nothing of the field is left
 pub fn range_of(layout: &[FieldSpec], total: usize, name: &str) -> Option<(usize, usize)> {
-    field_ranges(layout, total).into_iter().find(|(n, _, _)| n == name).map(|(_, a, b)| (a, b))
+    field_ranges(layout, total)
+        .into_iter()
+        .find(|(n, _, _)| n == name)
+        .map(|(_, a, b)| (a.min(total), b.min(total)))
+        .filter(|(a, b)| a < b)
 }
 
 /// how many positions / variants an expansion may produce
